@@ -4,6 +4,7 @@ import FastorModel.Driver.Expr
 import FastorModel.Driver.Lazy
 import FastorModel.Driver.Config
 import FastorModel.Driver.QR
+import FastorModel.Driver.QRF
 /-
   `fmodel`: line-protocol driver.  Reads one case per line on stdin, prints the model's observables
   for it.  The harness prints the implementation's observables for the same case in the same format.
@@ -21,6 +22,7 @@ def step (line : String) : String :=
   | "lazy" :: rest => runLazy (parseKV rest)
   | "config" :: rest => runConfig (parseKV rest)
   | "qr" :: rest => runQR (parseKV rest)
+  | "qrf" :: rest => runQRF (parseKV rest)
   | _ => "bad-op"
 
 partial def loop (h : IO.FS.Stream) (out : IO.FS.Stream) : IO Unit := do
